@@ -80,7 +80,9 @@ static int mb_ass_slice(MiniBufferObj *self,
                         "right operand length must match slice length");
         return -1;
     }
-    memcpy(self->mb_data + left, src_view.buf, count);
+    /* the source may be another view of the same memory:
+       buf[0:8] = ffi.buffer(p + 2, 8) */
+    memmove(self->mb_data + left, src_view.buf, count);
     PyBuffer_Release(&src_view);
     return 0;
 }
